@@ -57,7 +57,22 @@ def _install_finding(V, mode):
 
             V.assume(z3.Not(region))
 
+    def except_finding(fid, region, claim):
+        """claim adjusted for a recorded finding `fid` whose failing inputs lie inside `region`:
+        main run, finding listed as known  -> the claim is only required outside the region (other claims stay checked inside);
+        confirm run for fid                -> only violations inside the region count (and only [fid]-tagged claims are checked);
+        finding not listed                 -> the claim unchanged (a violation is reported as VIOLATION)."""
+        import z3
+
+        region, claim = core.B(region), core.B(claim)
+        if mode.confirm is not None:
+            return z3.Or(z3.Not(region), claim) if fid == mode.confirm else z3.BoolVal(True)
+        if fid in mode.known_ids:
+            return z3.Or(region, claim)
+        return claim
+
     V.finding = finding
+    V.except_finding = except_finding
     V.mode = mode
     return V
 
@@ -67,7 +82,12 @@ def _body(mod, fn, params, mode):
 
     def run(V):
         _install_finding(V, mode)
-        return f(V, **params)
+        post = f(V, **params)
+        if mode.confirm is not None and isinstance(post, (list, tuple)):
+            tagged = [c for c in post if isinstance(c, tuple) and isinstance(c[0], str) and ("[%s]" % mode.confirm) in c[0]]
+            if tagged:
+                return tagged
+        return post
 
     return run
 
